@@ -632,8 +632,9 @@ Proof.
   assert (G : forall x e, (length (e_sub (ep s x)) <= length (e_sub e))%nat ->
               (length (e_sub (ep s y)) <= length (e_sub (ep (set_ep s x e) y)))%nat).
   { intros x e H. destruct x, y; simpl in *; auto. }
-  destruct ev as [x body sid now fj|x idx now fj rc|x p now fj rc|x now drops|x w]; unfold step.
-  - pose proof (ep_submit_sub (ep s x) body sid now fj) as E.
+  destruct ev as [x body sid now fj rf|x idx now fj rc|x p now fj rc|x now drops|x w]; unfold step.
+  - destruct (rf && (0 <? e_dead (ep s x))%nat); [simpl; lia|].
+    pose proof (ep_submit_sub (ep s x) body sid now fj) as E.
     destruct (ep_submit (ep s x) body sid now fj) as [e ob]. simpl in *. apply G. rewrite E, app_length. lia.
   - destruct (nth_error _ idx) as [p|]; [|simpl; lia].
     pose proof (ep_deliver_sub z (ep s x) p now fj rc) as E.
@@ -656,8 +657,9 @@ Lemma step_inv oa ob s ev :
   sys_inv oa ob s -> is_inject ev = false -> bounded s -> sys_inv oa ob (fst (step false s ev)).
 Proof.
   intros [IA IB] Hh [BA BB].
-  destruct ev as [x body sid now fj|x idx now fj rc|x p now fj rc|x now drops|x w]; try discriminate; unfold step.
-  - destruct (ep_submit (ep s x) body sid now fj) as [e ob'] eqn:E. destruct x; simpl in *; split;
+  destruct ev as [x body sid now fj rf|x idx now fj rc|x p now fj rc|x now drops|x w]; try discriminate; unfold step.
+  - destruct (rf && (0 <? e_dead (ep s x))%nat); [split; assumption|].
+    destruct (ep_submit (ep s x) body sid now fj) as [e ob'] eqn:E. destruct x; simpl in *; split;
       eauto using submit_sender, submit_receiver.
   - destruct (nth_error (e_sent (ep s (peer x))) idx) as [p|] eqn:En; [|split; assumption].
     apply nth_error_In in En.
@@ -780,8 +782,9 @@ Proof.
   assert (G : forall x e, ep_ok e -> sys_ok (set_ep s x e)).
   { intros x e H. destruct x; split; simpl; auto. }
   assert (Hx : forall x, ep_ok (ep s x)) by (intros []; assumption).
-  destruct ev as [x body sid now fj|x idx now fj rc|x p now fj rc|x now drops|x w]; unfold step.
-  - pose proof (submit_ok _ body sid now fj (Hx x)).
+  destruct ev as [x body sid now fj rf|x idx now fj rc|x p now fj rc|x now drops|x w]; unfold step.
+  - destruct (rf && (0 <? e_dead (ep s x))%nat); [split; assumption|].
+    pose proof (submit_ok _ body sid now fj (Hx x)).
     destruct (ep_submit (ep s x) body sid now fj); simpl in *; auto.
   - destruct (nth_error _ idx) as [p|]; [|split; assumption].
     pose proof (deliver_ok z _ p now fj rc (Hx x)).
@@ -827,8 +830,9 @@ Proof.
   intros H.
   assert (G : forall x e, e_wmax e = e_wmax (ep s x) -> e_wmax (ep (set_ep s x e) y) = e_wmax (ep s y)).
   { intros x e E. destruct x, y; simpl in *; auto. }
-  destruct ev as [x body sid now fj|x idx now fj rc|x p now fj rc|x now drops|x w]; try discriminate; unfold step.
-  - unfold ep_submit. destruct (send_session _ _ _ _ _ _) as [[? ?] ?]; simpl. apply G; reflexivity.
+  destruct ev as [x body sid now fj rf|x idx now fj rc|x p now fj rc|x now drops|x w]; try discriminate; unfold step.
+  - destruct (rf && (0 <? e_dead (ep s x))%nat); [reflexivity|].
+    unfold ep_submit. destruct (send_session _ _ _ _ _ _) as [[? ?] ?]; simpl. apply G; reflexivity.
   - destruct (nth_error _ idx) as [p|]; [|reflexivity].
     unfold ep_deliver. destruct (dispatch _ _ _ _ _ _ _) as [[[? ?] ?] ?]; simpl. apply G; reflexivity.
   - unfold ep_deliver. destruct (dispatch _ _ _ _ _ _ _) as [[[? ?] ?] ?]; simpl. apply G; reflexivity.
@@ -945,8 +949,9 @@ Proof.
   assert (G : forall x e, ack_ok (nrx x) e ->
               ack_ok na (s_a (set_ep s x e)) /\ ack_ok nb (s_b (set_ep s x e))).
   { intros x e H. destruct x; split; simpl; auto. }
-  destruct ev as [x body sid now fj|x idx now fj rc|x p now fj rc|x now drops|x w]; unfold step.
-  - pose proof (submit_ack _ _ body sid now fj (Hx x)).
+  destruct ev as [x body sid now fj rf|x idx now fj rc|x p now fj rc|x now drops|x w]; unfold step.
+  - destruct (rf && (0 <? e_dead (ep s x))%nat); [split; assumption|].
+    pose proof (submit_ack _ _ body sid now fj (Hx x)).
     destruct (ep_submit (ep s x) body sid now fj); simpl in *; auto.
   - destruct (nth_error _ idx) as [p|]; [|split; assumption].
     pose proof (deliver_ack z _ _ p now fj rc (Hx x)).
@@ -1026,8 +1031,8 @@ Qed.
 
 (* ================= historical: the dispatch rule before 96f9f16 violated exactly-once ================= *)
 Definition witness : list event :=
-  [ Submit SA 100 0 0 None; Deliver SB 0 10 None head_choice; Tick SB 100 []; Deliver SA 0 110 None head_choice;
-    Submit SB 200 0 120 None; Deliver SA 1 130 None head_choice; Tick SA 400 []; Deliver SB 1 410 None head_choice ].
+  [ Submit SA 100 0 0 None false; Deliver SB 0 10 None head_choice; Tick SB 100 []; Deliver SA 0 110 None head_choice;
+    Submit SB 200 0 120 None false; Deliver SA 1 130 None head_choice; Tick SA 400 []; Deliver SB 1 410 None head_choice ].
 Definition witness_cfg : Z * Z * Z * Z * Z := (100, 400, 3, 50, 2).
 
 Lemma pre_96f9f16_rule_loses_message :
@@ -1044,12 +1049,12 @@ Proof. vm_compute. splits; reflexivity. Qed.
 
 (* a run across the 16-bit wrap with a lost packet, a retransmission and a duplicate delivery *)
 Definition wrap_run : list event :=
-  [ Submit SA 100 0 0 None; Submit SA 101 0 5 None;          (* Ns 65535 and 0; window 1: only the first goes out *)
+  [ Submit SA 100 0 0 None false; Submit SA 101 0 5 None false;          (* Ns 65535 and 0; window 1: only the first goes out *)
     Tick SA 150 [];                                   (* first copy "lost": retransmit *)
     Deliver SB 1 160 None head_choice; Deliver SB 1 165 None head_choice;            (* the retransmission arrives twice *)
     Tick SB 300 []; Deliver SA 0 310 None head_choice;                 (* B's ZLB acknowledges; A sends 101 *)
     Deliver SB 2 320 None head_choice; Deliver SB 0 330 None head_choice;            (* 101 arrives; the delayed first copy of 100 arrives last *)
-    Submit SB 200 7 340 None; Deliver SA 1 350 None head_choice ].
+    Submit SB 200 7 340 None false; Deliver SA 1 350 None head_choice ].
 Lemma wrap_run_ok :
   let s := run false (init_sys (100, 400, 3, 50, 1) (100, 400, 3, 50, 1) 65535 32767) wrap_run in
   honest wrap_run = true /\
@@ -1407,7 +1412,7 @@ Proof.
   unfold node_dispatch. destruct (n_known n && m_tid_ok m); [|exact H].
   pose proof (deliver_win false W _ (m_pkt m) now None (m_rc m) H) as D.
   destruct (ep_deliver false (n_ep n) (m_pkt m) now None (m_rc m)) as [e1 ob]. cbn [fst] in D.
-  destruct ob as [| |h o er| |]; cbn [n_ep]; auto. destruct h; cbn [n_ep]; auto.
+  destruct ob as [| |h o er| | |]; cbn [n_ep]; auto. destruct h; cbn [n_ep]; auto.
   destruct (m_removes m); auto using submits_win, flush_win.
 Qed.
 
@@ -1650,8 +1655,9 @@ Proof.
   assert (G : forall x e, live (e_ch e) -> sys_live (set_ep s x e)).
   { intros x e H. destruct x; split; simpl; auto. }
   assert (Hx : forall x, live (e_ch (ep s x))) by (intros []; assumption).
-  destruct ev as [x body sid now fj|x idx now fj rc|x p now fj rc|x now drops|x w]; unfold step.
-  - unfold ep_submit. pose proof (send_session_live (e_f (ep s x)) _ body sid now fj (Hx x)).
+  destruct ev as [x body sid now fj rf|x idx now fj rc|x p now fj rc|x now drops|x w]; unfold step.
+  - destruct (rf && (0 <? e_dead (ep s x))%nat); [split; assumption|].
+    unfold ep_submit. pose proof (send_session_live (e_f (ep s x)) _ body sid now fj (Hx x)).
     destruct (send_session (e_f (ep s x)) (e_ch (ep s x)) body sid now fj) as [[c' o] er]. simpl in *. auto.
   - destruct (nth_error _ idx) as [p|]; [|split; assumption].
     unfold ep_deliver. pose proof (dispatch_live z (e_f (ep s x)) _ p now fj rc (Hx x)).
@@ -1930,12 +1936,12 @@ Proof. unfold zlb_choice. split; [reflexivity|]. destruct (Z.min prev (now + f_z
    message of its peer exactly once, in order, and both queues drain. *)
 Definition bringup : list event :=
   let hc := head_choice in
-  [ Submit SA 1 0 0 None; Deliver SB 0 1 None hc; Submit SB 2 0 1 None;
+  [ Submit SA 1 0 0 None false; Deliver SB 0 1 None hc; Submit SB 2 0 1 None false;
     Tick SA 1000 []; Deliver SB 1 1001 None hc; Tick SB 1001 [];
-    Deliver SA 1 1002 None hc; Submit SA 3 0 1002 None; Submit SA 4 0 1002 None;
-    Deliver SB 2 1003 None hc; Deliver SB 3 1004 None hc; Submit SB 5 0 1004 None;
+    Deliver SA 1 1002 None hc; Submit SA 3 0 1002 None false; Submit SA 4 0 1002 None false;
+    Deliver SB 2 1003 None hc; Deliver SB 3 1004 None hc; Submit SB 5 0 1004 None false;
     Deliver SB 3 1005 None hc;
-    Deliver SA 2 1006 None hc; Submit SA 6 0 1006 None;
+    Deliver SA 2 1006 None hc; Submit SA 6 0 1006 None false;
     Deliver SB 4 1007 None hc; Tick SB 1300 []; Deliver SA 3 1301 None hc ].
 Lemma bringup_example :
   let s := run false (init_sys (0, 0, 0, 0, 16) (0, 0, 0, 0, 16) 0 0) bringup in
